@@ -24,7 +24,7 @@ structure Inv (c : Cfg) (s : State) : Prop where
   tail_ok : s.next s.tail = 0 ∨ s.next (s.next s.tail) = 0
   clk_cs : ∀ t b, s.cs t = some b → b < s.clock
   clk_rm : ∀ p, s.removedAt p < s.clock
-  op_cs : ∀ t, s.pc t ≠ .idle → ∃ b, s.cs t = some b
+  op_cs : ∀ t, s.cs t = none → s.pc t = .idle
   cs_n : ∀ t b, s.cs t = some b → t < c.n
   tl_held : ∀ t, HoldsTl (s.pc t) → Held s t (s.tl t)
   hd_held : ∀ t, HoldsHd s t → Held s t (s.hd t)
